@@ -24,6 +24,8 @@ use crate::world::*;
 const ASSETS: [&str; 4] = ["uwhale", "uusdc", "uatom", "tokena"];
 
 struct Pipe {
+    /// a registered vault refuses every message (fault injection): the collector's Fees query over the vault factory fails too
+    broken: bool,
     f: Full,
     vault2: Addr,
     adv2: Addr,
@@ -53,7 +55,7 @@ impl Pipe {
         let dao = f.w.add_account("dao");
         // grace 1: the previous epoch's remainder rolls over into every new epoch
         let _ = new_adversary;
-        Pipe { f, vault2, adv2, dao }
+        Pipe { broken: false, f, vault2, adv2, dao }
     }
 
     fn asset(&self, name: &str) -> A {
@@ -87,10 +89,23 @@ impl Pipe {
             "pair1": per(self.pool_fees(&f.pair1, true, false)), "pair2": per(self.pool_fees(&f.pair2, true, false)),
             "trio": per(self.pool_fees(&f.trio, true, true)),
             "vault1": per(self.vault_fees(&f.vault, "uwhale", true)), "vault2": per(self.vault_fees(&self.vault2, "uusdc", true))});
+        // what the collector's own Fees query says its factories' children hold (pending and all-time), per asset
+        let qok = std::cell::Cell::new(true);
+        let qfees = |vaults: bool, all_time: bool| -> Value {
+            use white_whale_std::fee_collector::{FactoryType, FeesFor, QueryMsg as CQ};
+            let q = CQ::Fees { query_fees_for: FeesFor::Factory {
+                factory_addr: if vaults { f.hub.vault_factory.to_string() } else { f.hub.pool_factory.to_string() },
+                factory_type: if vaults { FactoryType::Vault { start_after: None, limit: None } } else { FactoryType::Pool { start_after: None, limit: None } } }, all_time: Some(all_time) };
+            match f.w.query::<Vec<white_whale_std::pool_network::asset::Asset>, _>(&f.hub.collector, &q) {
+                Ok(v) => per(ASSETS.iter().map(|a| v.iter().filter(|x| x.info == self.asset(a).info()).map(|x| x.amount.u128()).sum()).collect()),
+                Err(_) => { qok.set(false); per(vec![0; ASSETS.len()]) }
+            }
+        };
+        let qf = json!({"pool": qfees(false, false), "pool_all": qfees(false, true), "vault": qfees(true, false), "vault_all": qfees(true, true), "ok": qok.get(), "faulty": self.broken});
         let cfg: white_whale_std::fee_collector::Config = f.w.query(&f.hub.collector, &white_whale_std::fee_collector::QueryMsg::Config {}).unwrap();
         let cur: EpochResponse = f.w.query(&f.hub.distributor, &DistQuery::CurrentEpoch {}).unwrap();
         let hist: Result<Coin, _> = f.w.query(&f.hub.collector, &white_whale_std::fee_collector::QueryMsg::TakeRateHistory { epoch_id: cur.epoch.id });
-        json!({"pending": kids, "alltime": all, "col": bal(&f.hub.collector), "dao": bal(&self.dao),
+        json!({"pending": kids, "alltime": all, "qfees": qf, "col": bal(&f.hub.collector), "dao": bal(&self.dao),
             "supply": per(ASSETS.iter().map(|a| f.w.supply(&self.asset(a))).collect()),
             "dist": s(f.w.balance(&f.hub.distributor, &f.whale)),
             "take": {"active": cfg.is_take_rate_active, "rate": s(cfg.take_rate.atomics().u128()), "dao_set": !cfg.take_rate_dao_address.as_str().is_empty()},
@@ -187,6 +202,7 @@ pub fn run_schedule(rec: &mut Rec, seed: u64, run: u64, line: &str) {
         assert!(r2.is_ok(), "{}", r2.err());
         let r3 = p.f.w.exec(&owner, &vf, &VF::UpdateConfig { owner: None, fee_collector_addr: None, vault_id: Some(cfg.vault_id), token_id: None }, &[]);
         assert!(r3.is_ok(), "{}", r3.err());
+        p.broken = true;
     }
     rec.emit(json!({"ev": "reset", "suite": "pipeline", "run": run, "seed": seed.to_string(), "sched": v.clone(),
         "cfg": {"rate": s(rate), "active": c["active"].as_bool().unwrap()}, "obs": p.obs()}));
